@@ -169,6 +169,7 @@ func viewTable(n *realNode, known map[enode.ID]*tabNode) tabView {
 }
 
 func runFindNodes(o *Out, r *rand.Rand, thorough bool, _ []string) {
+	findNodesWhileSeeding(o, r)
 	rounds, perRound := 4, shorter(250, thorough)
 	if thorough {
 		rounds, perRound = 40, 400
@@ -295,6 +296,39 @@ func runFindNodes(o *Out, r *rand.Rand, thorough bool, _ []string) {
 		}
 		nd.stop()
 	}
+}
+
+// findNodesWhileSeeding: a node as it starts in production - init check on, configured with boot nodes that are slow to answer
+// (here: silent), so its first refresh takes seconds. In that phase its table already holds the boot nodes, none of them
+// liveness-checked: asked for their distances it offers none of them.
+func findNodesWhileSeeding(o *Out, r *rand.Rand) {
+	mn := newMemNet()
+	var boot []*enode.Node
+	for i := 0; i < 3; i++ {
+		boot = append(boot, signRecPad(keyFromSeed(r), net.IP{34, byte(60 + i), 9, 9}, 7700+i, 1, 0))
+	}
+	nd := startNode(mn, r, nodeOpts{ip: net.IP{34, 50, 61, 1}, port: 9170, utpLimit: 10, initCheck: true, boot: boot})
+	defer nd.stop()
+	self := nd.p.Self().ID()
+	inTable := 0
+	for _, n := range nd.p.VerifTable().VerifNodeList() {
+		for _, b := range boot {
+			if n.ID() == b.ID() {
+				inTable++
+			}
+		}
+	}
+	offered := 0
+	for _, b := range boot {
+		d := uint(enode.LogDist(self, b.ID()))
+		resp, err := nd.p.VerifHandleFindNodes(&net.UDPAddr{IP: net.IP{34, 9, 9, 9}, Port: 4000}, &portalwire.FindNodes{Distances: [][2]byte{{byte(d), byte(d >> 8)}}})
+		msg := &portalwire.Nodes{}
+		if err != nil || len(resp) == 0 || resp[0] != portalwire.NODES || msg.UnmarshalSSZ(resp[1:]) != nil {
+			continue
+		}
+		offered += len(msg.Enrs)
+	}
+	o.Case(fmt.Sprintf("fnseeding boot=%d intable=%d", len(boot), inTable), fmt.Sprintf("offered=%d", offered))
 }
 
 // runNodesResp: the asking side. NODES replies carrying valid, unsigned, wrong-distance, duplicate, low-port,
